@@ -321,9 +321,9 @@ func Verif_C16_partition_lengths() {
 func Verif_C16_partition_small() {
 	n := 12
 	if verifTier() >= 1 {
-		n = 16
+		n = 14
 	}
-	verifNote("UPDATE body: every byte string of length <= 12 (quick) / 16 (thorough)")
+	verifNote("UPDATE body: every byte string of length <= 12 (quick) / 14 (thorough)")
 	for _, w := range []string{"framing-abort", "partitioned", "ext-len-attr", "overrun-then-nlri", "repeated-mp-aborts", "duplicate-attr-skipped"} {
 		verifWant("small-" + w)
 	}
